@@ -7,7 +7,7 @@ V=$(pwd)
 [ -x engine/gosym ] || sh bin/setup || exit 2
 out=$V/sweep_results.txt; : > $out
 mkdir -p /tmp/sweep
-for s in $(ls seeded | grep -v RESULTS | grep -E "${SWEEP_FILTER:-.}"); do
+for s in $(ls seeded | grep -v RESULTS | grep -E -e "${SWEEP_FILTER:-.}"); do
   id=${s%%-*}
   wt=/tmp/sweep/$s
   git -C /repo worktree remove --force $wt 2>/dev/null; rm -rf $wt
